@@ -1,9 +1,93 @@
 import AioModel.Wire
-/-! Driver commands of property C09 (stub until the model exists). -/
+import AioModel.C09
+/-!
+Driver commands of property C09.
+
+`run <lax> <limit> <framing> <compressed> <sniff> <checkEof> <maxTrailers> <tok>…`
+* framing: `L<n>` (Content-Length n) | `C` (chunked) | `E` (until EOF)
+* `K:<in>:<maxlen>:<out|!>:<avail>:<eof>` — one recorded call of the real decompressor (in order)
+* ops: `D:<hex>` deliver a segment · `X` peer closes (client `connection_lost`) · `R:<n>` `read(n)` ·
+  `A` `readany()` · `S:<n>` `set_read_chunk_size(n)` · `Q:<cms>` continue `BaseRequest.read()`
+
+Reply: one item per op, `<out>/<size>/<trPaused readingPaused paused hasMore eof ppLive>/<total>`,
+then ` peak=<n> up=<err>`.
+
+`rle <maxlen>… : <hex>…` drives `Codec.expand` alone (law checks / toy twin).
+-/
 namespace Aio.Driver.C09
-open Aio Aio.Wire
+open Aio Aio.Wire Aio.C09
+
+def parseCall (s : String) : Option Call :=
+  match s.splitOn ":" with
+  | ["K", i, m, o, a, e] => do
+    let i ← parseHex i
+    let m ← m.toNat?
+    let o ← if o == "!" then some none else (parseHex o).map some
+    pure { input := i, maxLen := m, out := o, avail := parseBool a, atEof := parseBool e }
+  | _ => none
+
+def parseOp (s : String) : Option Op :=
+  match s.splitOn ":" with
+  | ["D", h] => (parseHex h).map .deliver
+  | ["X"] => some .close
+  | ["R", n] => n.toNat?.map .read
+  | ["A"] => some .readAny
+  | ["S", n] => n.toNat?.map .setChunk
+  | ["Q", n] => n.toNat?.map .reqRead
+  | _ => none
+
+def parseFraming (s : String) : Option (Framing × Nat) :=
+  if s == "C" then some (.chunked, 0)
+  else if s == "E" then some (.untilEof, 0)
+  else match s.toList with
+    | 'L' :: r => (String.ofList r).toNat?.map (fun n => (.length, n))
+    | _ => none
+
+def showOut : Out → String
+  | .none => "-"
+  | .skipped => "skip"
+  | .blocked => "blk"
+  | .data bs => "d=" ++ showHex bs
+  | .err e => "e=" ++ e.name
+
+def showState {c : Codec} (w : World c) : String :=
+  let b := fun (x : Bool) => if x then "1" else "0"
+  s!"{bsize w.buf}/{b w.trPaused}{b w.readingPaused}{b (w.paused && w.ppLive && w.parserLive)}{b (w.hasMore && w.parserLive)}{b w.eof}{b (w.ppLive && w.parserLive)}/{w.total}"
+
+def splitToks (toks : List String) : List String × List String :=
+  toks.partition (fun t => t.startsWith "K:")
+
+def showErrOpt : Option Err → String
+  | none => "-"
+  | some e => e.name
 
 def handle : List String → String
+  | "run" :: lax :: limit :: fr :: comp :: sniff :: chk :: mt :: toks =>
+    let (ks, os) := splitToks toks
+    match limit.toNat?, parseFraming fr, mt.toNat?, ks.mapM parseCall, os.mapM parseOp with
+    | some limit, some (framing, len), some mt, some script, some ops =>
+      let c := Codec.scripted script
+      let w : World c := World.init c limit framing len (parseBool comp) (parseBool sniff) (parseBool chk)
+        (parseBool lax) mt
+      let rs := runOuts w ops
+      let items := rs.map (fun (r : World c × Out) => showOut r.2 ++ "/" ++ showState r.1)
+      let wf := (rs.getLast?.map (·.1)).getD w
+      " ".intercalate items ++ s!" peak={wf.peak} up={showErrOpt wf.upErr} left={wf.dst.todo.length}{if wf.dst.desync then " DESYNC" else ""}"
+    | _, _, _, _, _ => "bad-op"
+  | "rle" :: rest =>
+    -- rle <m1> <m2> … : <hex1> <hex2> …   — feed input i_k with max_length m_k to Codec.expand
+    let (ms, hs) := rest.span (· != ":")
+    match ms.mapM (·.toNat?), (hs.drop 1).mapM parseHex with
+    | some ms, some hs =>
+      if ms.length != hs.length then "bad-op" else
+      let rec go (st : Codec.expand.St) : List (Nat × Bytes) → List String → String
+        | [], acc => " ".intercalate acc.reverse
+        | (m, i) :: t, acc =>
+          match Codec.expand.step st i m with
+          | none => " ".intercalate (("!" :: acc).reverse)
+          | some (st', o) => go st' t ((showHex o ++ ":" ++ showBool (Codec.expand.avail st')) :: acc)
+      go Codec.expand.init (ms.zip hs) []
+    | _, _ => "bad-op"
   | _ => "bad-op"
 
 end Aio.Driver.C09
